@@ -107,8 +107,12 @@ def field_decl(f, named):
 
 def mel_ok(fields): return all(f.fo.mel or f.fo.skip for f in fields)
 
-def render(d):
-    tp=d.tparam
+def render(d, tp_override=None):
+    """Definition + Subject impl + registry lines. With tp_override: only the Subject impl and the registry
+    line of a second instantiation of a generic definition (state shared between monomorphisations --
+    function-local statics, caches -- needs two of them in one process, the smaller registered first)."""
+    tp=tp_override or d.tparam
+    only_impl=tp_override is not None
     gen="<T>" if d.generic else ""
     conc_name=f"{d.name}<{tp}>" if d.generic else d.name
     all_fields = d.fields if d.kind=="struct" else [f for v in d.variants for f in v.fields]
@@ -120,7 +124,8 @@ def render(d):
     out.append(f"#[derive({', '.join(derives)})]")
     if d.transparent: out.append("#[repr(transparent)]")
     if d.repr: out.append(f"#[repr({d.repr})]")
-    if d.kind=="struct":
+    if only_impl: out=[]
+    elif d.kind=="struct":
         if d.shape_kind=="unit": out.append(f"pub struct {d.name};")
         elif d.shape_kind=="tuple": out.append(f"pub struct {d.name}{gen}({', '.join(field_decl(f,False) for f in d.fields)});")
         else: out.append(f"pub struct {d.name}{gen} {{ {', '.join(field_decl(f,True) for f in d.fields)} }}")
@@ -141,7 +146,9 @@ def render(d):
         out.append(f"pub enum {d.name}{gen} {{ {', '.join(vs)} }}")
     # Subject impl
     def fshape(f):
-        return f"Field {{ shape: {f.fo.shape.replace('<T>','<'+tp+'>') if f.fo.key!='gen' else '<'+tp+'>::shape()'}, skip: {str(f.fo.skip).lower()} }}"
+        sh=f.fo.shape.replace('<T>','<'+tp+'>') if f.fo.key!='gen' else '<'+tp+'>::shape()'
+        if f.fo.key=="cgen" and tp=="u8": sh=sh.replace("Compact(16)","Compact(8)")
+        return f"Field {{ shape: {sh}, skip: {str(f.fo.skip).lower()} }}"
     def ffrom(f, v):
         if f.fo.key=="gen": return f"<{tp}>::from_value({v})"
         if f.fo.key=="ph": return "PhantomData"
@@ -207,6 +214,10 @@ def render(d):
             t=w.format(conc_name)
             extra_regs.append(f'subjects::vt!({t}, "{t}", "derived", false)')
     reg=f'subjects::vt!({conc_name}, "{conc_name}", "derived", {str(d.tag in CORE_TAGS).lower()})'
+    if only_impl: return "\n".join(out), [reg]
+    if d.generic and tp=="u16":
+        t2, r2 = render(d, "u8")
+        return "\n".join(out)+"\n"+t2, r2+[reg]+extra_regs
     return "\n".join(out), [reg]+extra_regs
 
 CORE_TAGS={"core"}
